@@ -103,7 +103,8 @@ class Ob:
     """one solver obligation = one CBMC run on one harness at one shape"""
     def __init__(s, oid, harness, engine='N', defs=None, unwind=4, unwindset=(), flags=(), nsrcs=(), ovr=(), uf=False,
                  leak=False, timeout=None, functions=(), bounds='', stubs=(), mem_gb=12, nomallocfail=True, what='',
-                 drop_checks=False, extra_ll=(), optional_witnesses=(), exclude=()):
+                 drop_checks=False, extra_ll=(), optional_witnesses=(), exclude=(), alloc_hook=False):
+        s.alloc_hook = alloc_hook
         s.exclude = list(exclude)
         s.optional_witnesses = list(optional_witnesses)
         s.id = oid; s.harness = harness; s.engine = engine; s.defs = dict(defs or {}); s.unwind = unwind
@@ -134,13 +135,14 @@ def build_L(ctx, ob, wd):
     r = subprocess.run(['llvm-link-14', '-S', hl] + libs + ['-o', al], capture_output=True, text=True)
     if r.returncode != 0: raise RuntimeError('llvm-link: ' + r.stderr[-3000:])
     ml = os.path.join(wd, 'm2r.ll')
-    r = subprocess.run(['opt-14', '-S', '-internalize', '-internalize-public-api-list=harness', '-globaldce', '-mem2reg',
+    r = subprocess.run(['opt-14', '-S', '-internalize', '-internalize-public-api-list=harness,vf_alloc_hook', '-globaldce', '-mem2reg',
                         '-loop-simplify', al, '-o', ml], capture_output=True, text=True)
     if r.returncode != 0: raise RuntimeError('opt: ' + r.stderr[-3000:])
     gc = os.path.join(wd, 'gen.c')
     cmd = [sys.executable, os.path.join(VERIF, 'vf', 'll2c.py'), ml]
     if ob.uf: cmd.append('--uf' if ob.uf is True or ob.uf == 'all' else '--uf-muldiv')
     if ob.ovr: cmd += ['--ovr', ','.join(ob.ovr)]
+    if ob.alloc_hook: cmd.append('--alloc-hook')
     r = subprocess.run(cmd, capture_output=True, text=True)
     if r.returncode != 0: raise RuntimeError('ll2c: ' + r.stderr[-3000:])
     open(gc, 'w').write(r.stdout)
